@@ -6,9 +6,30 @@ props = [json.loads(l) for l in open(os.path.join(here, 'properties.jsonl'))]
 
 # id -> (engine, technique, level text, level note, design ref)
 CHECKS = {
+ 'C01': ('E1+E2+E3', 'bounded-exhaustive enumeration of parent/child tree pairs, list-edit programs and layer chains, each replayed on the real Parser in lock-step with the reference merge semantics',
+         'All (parent<=4 nodes, child<=3 (thorough 4) nodes) pairs over the full override-directive alphabet, all list parents of <=3 entries x child lists of <=2 directive entries (99 entry forms), all chains of 2-3 further layers, and JSON-file replays. After every layer Documents() and OutputDocuments() must equal the model; a model Reject must surface as an error. Exhaustive within the bounds.',
+         'Trusted: ref.Merge/ref.Match/ref.Stream/ref.Final (DESIGN Appendix A), about 400 lines. Unspecified zones (DESIGN 3.1) are executed but not judged.', '4/C01'),
+ 'C02': ('E3+E2', 'explicit enumeration of all layer histories over multi-document streams on the real Parser, in lock-step with the stream model, plus a differential independence oracle and pointer-sharing state keys',
+         'All base streams of 1-3 documents x all sequences of 1-2 (thorough 3) layers of 1-2 documents over 7 selector forms; thorough adds 3-document layers and 4-document bases; a sharing space of 252 bases x 28 container-carrying edits to depth 3; file-backed replays in YAML and JSON. Targets, order, untouched documents and per-document independence are checked after every layer.',
+         'Trusted: ref.Stream targeting model; independence oracle is the implementation itself on a single-document parser.', '4/C02'),
  'C06': ('E1+E2', 'bounded-exhaustive enumeration of all token trees up to N nodes, each replayed against the real Parser and compared with the reference semantics (identity / unescape)',
          'Every tree with <=3 nodes over the full 26-token $-alphabet (keys and values) and every plain tree with <=4 (thorough 5) nodes is evaluated alone, doubled, and doubled-as-child over 2-4 bases; the result must equal the generating tree. Exhaustive within that bound, no sampling.',
          'Trusted: the 60-line unescape/null-drop model and refMerge for the layered expectation; strings outside the token alphabet and trees beyond the node bound are not covered.', '4/C06'),
+ 'C07': ('E1', 'bounded-exhaustive injection of every marker form at every position of every base tree, evaluated in four contexts on the real Parser, with an output-scanning invariant',
+         'Every single injection of 15 string markers and 100 directive-map markers into every base tree with <=4 (thorough 5) nodes, each evaluated plain, under $output:false, inside $encode:json and as a lower layer; every $required lower layer x every subset of overrides. Invariant: no $required / $lowercase token in any successful output (or in encoded text).',
+         'Invariant oracle needs no model; definite accept/reject expectations only where the statement fixes them.', '4/C07'),
+ 'C08': ('E1+E4+E6', 'bounded-exhaustive input enumeration executed under a deterministic step budget on an overlay-instrumented build, with crash-contained worker subprocesses and a CLI exit-contract driver',
+         'All byte strings of length <=5 (thorough 6) over a 14-byte alphabet as .json and .toml files; every single (thorough: double) directive injection into every base tree in 5 layerings and 3 file formats; all 125k three-key reference graphs; all 512x3 $parent digraphs; 39 hand-written YAML texts; CLI exit contract for all four tools on a subset. Oracle: returns output xor error, no panic, step budget not exceeded, worker survives, definite cycles are errors.',
+         'Step budget counts instrumented function/loop entries of package bkl only; dependencies are covered by the worker watchdog. Cycle => error is asserted only for pure whole-value reference cycles and $parent cycles.', '4/C08'),
+ 'C09': ('E4', 'stateless choice-point DFS over all map-iteration orders within a deviation bound and over all interleavings of shared-variable accesses within a pre-emption bound, on an overlay-instrumented build; separate free-running -race pass',
+         'For every input (hand-picked order-sensitive documents plus generated trees and merge pairs) all executions with <=2 (thorough 3) non-default picks at every map range site vinstr finds in the working tree; all 2-thread (<=2 pre-emptions) and 3-thread (<=1) interleavings at accesses to mutable package-level variables; 16-goroutine free-running pass under the race detector; two fresh CLI processes per input. Every execution must produce the observation of the default execution.',
+         'Map iteration inside dependencies is not controlled. The scheduler is sequentially consistent and only interleaves at package-level variable accesses (none mutable on the current tree); the -race pass guards that assumption.', '4/C09'),
+ 'C11': ('E1+E2', 'bounded-exhaustive enumeration of all marker placements on all small trees, compared with an independent selection/hiding model',
+         'Every tree with <=6 (thorough 7) nodes over keys {a,b,$output} and scalars {1,true,false} and every 2-document stream of trees <=3 nodes; outputs must equal ref.Outputs (multiset where a selection contains another selection), and no $output marker may survive.',
+         'Trusted: ref.Outputs (select/hide/final), 150 lines.', '4/C11'),
+ 'C19': ('E3', 'explicit-state breadth-first search over API histories with a reflective whole-Parser state key, plus stateless enumeration of all histories without de-duplication against a never-observed reference parser',
+         'Operation alphabet {4 template merges, MergeFileLayers, Documents, Output(json), Output(yaml), OutputDocuments, OutputToWriter}; all histories of length <=5 (thorough 6) without de-duplication; BFS to length 8 / 3 merges de-duplicated on a reflective dump of the Parser (unexported fields, pointer sharing) for 4 (thorough all 495) template sets. Invariants: observations are self-loops, observations are a function of state, merges after observations behave as if never observed, returned bytes are stable, Documents() equals the merged unevaluated model tree.',
+         'The never-observed reference is the same implementation on a fresh parser; package-level state is covered by the stateless enumeration rather than the state key.', '4/C19'),
 }
 NOT_YET = 'check not built yet in this session (work in progress; see DESIGN.md section 4 for the planned design)'
 
